@@ -13,6 +13,9 @@ CLAIMED['C17'] = dict(ref='5.17', text='The real __lt__/__eq__ and the interpret
 CLAIMED['C02'] = dict(ref='5.2', text='Clause K1 for every binary-layer parsable class: the real _parse is explored on an arbitrary symbolic buffer; every implicit Python exception site (subscripts, dict lookups, Enum(value), attrs validators, struct, codecs, next()) is a fork, and on every path the escaping exception is one of the four parse errors. Nested parsables are used through their own K1/K2 clauses (assume-guarantee), primitives and containers through verified contracts. Vectors of variable-size items are explored up to two items (reported as bounded, not counted).',
                 note='externals (asn1crypto, cryptodatahub key/stores, ipaddress, codecs) enter with assumed raise-sets listed in the evidence; text-layer classes are not covered; pyvc and z3 trusted.',
                 technique='contract-based deductive verification: exception-set postcondition K1 over symbolic execution of the real source with sidecar contracts, z3')
+CLAIMED['C03'] = dict(ref='5.3', text='K2 (0 <= n <= len, n >= 1 for framing units and for vector items on non-empty input) on every accepting path of every binary class; the frame conditions of parse_mutable / parse_exact_size / parse_immutable proved once against the class contract; K8 for the framing units as a two-run obligation (same prefix, arbitrary other suffix => same object and n) plus n == the length the header declares, with the declared length written independently from the protocol documents.',
+                note='nested parsers enter through their own K1/K2/K8 clauses (assume-guarantee) and are assumed deterministic; LDAP frames (asn1crypto) and the text-layer SSH banner are not covered; TlsHandshakeMessageVariant K8 not covered (members are).',
+                technique='contract-based deductive verification: length/frame postconditions and a 2-run locality obligation over symbolic execution of the real source, z3')
 PENDING = {}
 NA = {
     'C18': 'relational property over RFC text grammars; every code path is ParserText scanning loops, attrs reflection in FieldValueMultiple, dateutil/urllib3/json: no contract within reach of the installed SMT back ends expresses or decides it (DESIGN.md 5.18)',
